@@ -155,3 +155,17 @@ pub fn path_class(path: &str) -> String {
 pub fn panic_of(p: &Panic) -> Value {
     json!({"panic": p.msg, "at": p.loc})
 }
+
+/// run a seeded history of valid operations (ends early on the first disagreement with the model)
+pub fn random_history(rng: &mut crate::util::Rng, cfg: crate::gen::GenCfg, nops: usize, milestone: usize, shrink: bool) -> History {
+    let mut h = History::new(milestone, shrink);
+    let mut g = crate::gen::Gen::new(cfg);
+    for _ in 0..nops {
+        let op = g.gen_op(rng, &h.model);
+        let r = h.step(&op);
+        if !r.agreement.in_step() {
+            break;
+        }
+    }
+    h
+}
